@@ -105,7 +105,7 @@ MWEIGHTS = {
     'blacklist': 2, 'group': 3, 'del_group': 1, 'clock': 6, 'cell_event': 1,
     'integrity': 2, 'restart': 0, 'noop': 1, 'blackout_server': 1, 'partition_schedule': 1, 'bucket_new': 1,
     'stale_finished': 1, 'swap_apps': 1, 'retention_update': 1, 'bucket_remove': 0, 'server_delete_event_lost': 1,
-    'servers_reload_all': 1, 'bucket_reparent': 0, 'stale_presence': 2, 'maintenance': 2, 'group_squeeze': 3, 'blackout_then_redeclare': 2, 'agent_reregisters': 2, 'server_stub': 1, 'new_trait_then_allocation': 1,       # bucket_reparent: C11 only (its profile)
+    'servers_reload_all': 1, 'bucket_reparent': 0, 'stale_presence': 2, 'maintenance': 2, 'group_squeeze': 3, 'blackout_then_redeclare': 2, 'agent_reregisters': 2, 'server_stub': 1, 'new_trait_then_allocation': 1, 'clock_back': 0,       # bucket_reparent: C11 only (its profile)
 }
 
 
@@ -122,7 +122,9 @@ class MasterDriver:
         self.clock = clock
         self.mon = mon
         self.pf = profile or MProfile()
-        self.srv = zkfake.ZkServer(clock=clock.peek)
+        # (ZooKeeper's clock is its own: it does not follow the master host's clock when that is stepped back)
+        self.zk_offset = 0.0
+        self.srv = zkfake.ZkServer(clock=lambda: clock.peek() + self.zk_offset)
         self.srv.keep_log = False
         # a real server lists children in no particular order
         self.srv.child_order, self.srv.order_salt = 'hash', str(rng.random())
@@ -646,7 +648,9 @@ class MasterDriver:
                         res = [rng.choice([0, 0, 1, 2, 4]) * 1024, rng.choice([0, 0, 1, 2, 4]) * 100,
                                rng.choice([0, 0, 1, 2, 4]) * 1024]
                         rank = rng.choice([100, 100, 50, 80, 120, 0])
-                        adj = min(rank, rng.choice([0, 0, 10, 20, 50]))
+                        adj = rng.choice([0, 0, 10, 20, 50])
+                        if rng.random() >= 0.15:
+                            adj = min(rank, adj)        # (else the adjustment may exceed the rank: both are 0..100 by the schema)
                         obj = {'name': name, 'partition': label,
                                'memory': spell_mb(rng, res[0]), 'cpu': celldrv.spell_cpu(rng, res[1]),
                                'disk': spell_mb(rng, res[2]), 'rank': rank, 'rank_adjustment': adj,
@@ -1027,6 +1031,14 @@ class MasterDriver:
             self.ops.append(('partition_schedule', lb, sched))
         elif kind == 'new_trait_then_allocation':
             self.op_new_trait_then_allocation()
+        elif kind == 'clock_back' and self.master is not None:
+            # the master host's clock is stepped back (time synchronisation); ZooKeeper's is not.  Weight 0 except in C09's
+            # profile: the statement of C09 does not depend on time, the retention windows of C08 would not be defined
+            back = rng.choice([1, 30, 300, 300, 3600])
+            self.clock.now -= back
+            self.zk_offset += back
+            self.ops.append(('clock_back', back))
+            self.mon.count('master_clock_stepped_back')
         elif kind == 'integrity':
             return 'integrity'
         elif kind == 'restart':
